@@ -3,6 +3,7 @@ package main
 import (
 	"bytes"
 	"fmt"
+	"io"
 	"regexp"
 	"strconv"
 	"strings"
@@ -65,6 +66,37 @@ func runSVG(input string, o sopts) (out string, err error, pan interface{}) {
 	var buf bytes.Buffer
 	err = m.Minify(mt, &buf, strings.NewReader(input))
 	return buf.String(), err, nil
+}
+
+// stubCSSParams runs the svg minifier with a recording stub registered for text/css and reports a dispatch whose parameters
+// do not fit its payload ("" when all fit).
+func stubCSSParams(input string, o sopts) (bad string) {
+	defer func() {
+		if r := recover(); r != nil {
+			bad = ""
+		}
+	}()
+	m := minify.New()
+	m.Add("image/svg+xml", &svg.Minifier{KeepComments: o.keepComments, Inline: o.mode == "inline" && o.inlineVia == "field"})
+	m.AddFunc("text/css", func(_ *minify.M, w io.Writer, r io.Reader, params map[string]string) error {
+		b, _ := io.ReadAll(r)
+		sheet := bytes.IndexByte(b, '{') >= 0
+		if sheet && params["inline"] == "1" && bad == "" {
+			bad = fmt.Sprintf("style sheet %q dispatched with params %v", clipS(string(b), 120), params)
+		}
+		if !sheet && bytes.IndexByte(b, ':') >= 0 && !bytes.Contains(b, []byte("/*")) && params["inline"] != "1" && !strings.Contains(input, "<style") && bad == "" {
+			bad = fmt.Sprintf("declaration list %q dispatched with params %v", clipS(string(b), 120), params)
+		}
+		w.Write(b)
+		return nil
+	})
+	mt := "image/svg+xml"
+	if o.mode == "inline" && o.inlineVia != "field" {
+		mt = "image/svg+xml;inline=1"
+	}
+	var buf bytes.Buffer
+	_ = m.Minify(mt, &buf, strings.NewReader(input))
+	return bad
 }
 
 func runPath(d string) (out string, pan interface{}) {
@@ -320,6 +352,15 @@ func evaluateDoc(input string, o sopts) verdict {
 	if d := compareNodes(di.root, do.root, co, "", false, false); d != nil {
 		v.fail("oracle", classifyDoc(d, input, di), d.detail, "same tree, attributes and values modulo the removals C05 allows")
 		return v
+	}
+	if o.css {
+		// C11: what the svg minifier hands to the css minifier. A recording stub takes the place of the css minifier: a
+		// style sheet (content of a style element: it has a rule block) must arrive without the inline parameter, a
+		// declaration list (style attribute) with inline=1 — also when the svg itself is minified inline.
+		if bad := stubCSSParams(input, o); bad != "" {
+			v.fail("oracle", "NEW:embedded-css-params", bad, "style elements are dispatched as text/css without parameters, style attributes with inline=1")
+			return v
+		}
 	}
 	_, err, pan = runSVG(out, o)
 	if pan != nil {
